@@ -160,6 +160,8 @@ func spec(dir string, entry []string, all bool, order []string) pipe.Spec {
 			// asks Context.Doc about the types of the fields (r and s have fields of types of p, q and r; p has a
 			// package-level tag of its own): the answer is rendered and must not depend on who asked before
 			gs.Default.DocOfFieldTypes = true
+			// and refers to two packages through snippet VALUES shared by all packages of the process
+			gs.Default.SharedExpose = true
 		}
 		if g == "g2" {
 			// a generator that registers deferred callbacks and imports per type
